@@ -233,6 +233,9 @@ pub fn frame_set(name: &str) -> Vec<FrameSpec> {
             dirty(&mut v);
             twins(&mut v);
             dirty_huf(&mut v);
+            // a frame with a LARGER window than all the others (8 KiB): whoever keeps it across a reset holds bytes of the next
+            // frame back that a fresh decoder hands out
+            v.push(plain("bigwin", 0x18, false, vec![Blk::Raw(fresh(30, 97)), Blk::Rle(5, 40)]));
         }
         "hostile" => {
             hostile(&mut v);
